@@ -258,12 +258,32 @@ def from_sre(pattern: str, flags: int = 0, mode: Optional[str] = None) -> Rx:
         return Seq(*parts) if len(parts) != 1 else parts[0]
 
     if mode is None:
-        return conv(tree)
+        items = list(tree)
+        if items and items[-1][0] in (sc.ASSERT, sc.ASSERT_NOT) and items[-1][1][0] == 1:
+            # a trailing look-ahead constrains what follows the lexeme, not the lexeme (see trailing_lookahead)
+            items.pop()
+        return conv(items)
     # ---- subject languages: the set of whole subject strings on which re.<mode>(pattern, subject) succeeds.
     # Supported around the core: a leading width-1 lookbehind, a trailing width-1 lookahead, ^ / \\A first, $ / \\Z last.
     sigma = Rep(Chars(CharSet([(0, 0x10FFFF)])), 0, None)
     empty = Chars(CharSet())
     return _subject_language(list(tree), mode, pattern, conv, conv_in, cat, sc, sigma, empty)
+
+
+def trailing_lookahead(pattern: str, flags: int = 0) -> Optional[Tuple[bool, CharSet]]:
+    """(positive, characters) of a one-character look-ahead that ends the pattern, or None."""
+    import re._parser as sp  # type: ignore[import-not-found]
+    from re import _constants as sc  # type: ignore[attr-defined]
+
+    items = list(sp.parse(pattern, flags))
+    if not items or items[-1][0] not in (sc.ASSERT, sc.ASSERT_NOT) or items[-1][1][0] != 1:
+        return None
+    sub = list(items[-1][1][1])
+    if len(sub) == 1 and sub[0][0] is sc.LITERAL:
+        return items[-1][0] is sc.ASSERT, CharSet([(sub[0][1], sub[0][1])])
+    if len(sub) == 1 and sub[0][0] is sc.NOT_LITERAL:
+        return items[-1][0] is sc.ASSERT, CharSet([(sub[0][1], sub[0][1])]).negate()
+    raise AnalysisError(f"unsupported lookahead (only one literal character is modelled) in {pattern!r}")
 
 
 def _subject_language(items: List[Any], mode: str, pattern: str, conv: Any, conv_in: Any, cat: Any, sc: Any, sigma: Rx, empty: Rx) -> Rx:
